@@ -137,6 +137,7 @@ def main():
     infra.extend(vac_problems)
     # known findings: the excluded input region is re-run on its own; a failure there is the finding still being present
     known_lines = []
+    kf_hits = {}
     for u in units:
         for f in kf_of.get(u['id'], []):
             r = results.get((u['id'], 'kf:' + f['id']))
@@ -145,9 +146,9 @@ def main():
                 continue
             bad = [o for o in r['obligations'] if o['status'] != 'SUCCESS' and relevant(o, prop, u)]
             if bad and prop in f['properties']:
-                l = '%s [%s; unit %s; input region: %s]' % (f['what'], f['id'], u['id'], f['pred'])
-                if l not in known_lines:
-                    known_lines.append(l)
+                kf_hits.setdefault(f['id'], (f, []))[1].append(u['id'])
+    for fid, (f, us_) in sorted(kf_hits.items()):
+        known_lines.append('%s [%s; input region: %s; confirmed in %d unit(s): %s]' % (f['what'], fid, f['pred'], len(us_), ', '.join(us_[:3]) + (' ...' if len(us_) > 3 else '')))
     new_failures = failures
     wall = time.time() - t_start
     ev = {
